@@ -46,7 +46,7 @@ CLAIMED.update({
     'C07': dict(
         text='Deductive proof of Reconcile as far as a contract expresses it: both stacks stay strictly positive (so a kept amount is consumed sender by sender, never negative or zero), '
              'senders and receivers stay balanced, postings equal the non-kept receivers, kept never becomes a posting, inputs are not written.',
-        note='The exact first-come-first-served pairing order (which sender is paired with which receiver) is NOT proved in general: it needs a positional invariant over two interleaved prefix sums. A BOUNDED stand-in (labelled so in the evidence, never counted as proved) checks it for 2 senders x 2 receivers with arbitrary names (kept included) and amounts against the interval-overlap formula: the harness reconcilePairing2x2 (build tag verif) is verified with every loop of Reconcile unrolled up to 8 iterations, unwinding assertion included.',
+        note='The exact first-come-first-served pairing order (which sender is paired with which receiver) is NOT proved in general: it needs a positional invariant over two interleaved prefix sums. A BOUNDED stand-in (labelled so in the evidence, never counted as proved) checks it for 2 x 2, 3 x 2 and 2 x 3 senders x receivers with arbitrary names (kept included, so kept amounts spanning two or three sources are covered) and arbitrary amounts against the interval-overlap formula: the harnesses reconcilePairing2x2 / 3x2 / 2x3 (build tag verif) are verified with every loop of Reconcile unrolled up to 8 / 10 / 10 iterations, unwinding assertion included.',
         ref='DESIGN.md section 5 C07'),
     'C08': dict(
         text='Deductive proof of runSaveStatement against the closed formula of the property (whole-view postcondition: the saved pair changes as specified, every other pair is unchanged, '
@@ -188,7 +188,7 @@ def main():
         'setup_cmd': 'cd /verif/engine/ssaexport && GOFLAGS=-mod=mod GOPROXY=off GOSUMDB=off GOTOOLCHAIN=local go build -o /verif/bin/ssaexport .',
         'hooks': {
             'guard': 'verif',
-            'enable': '-tags verif is passed to go/packages by the SSA exporter; the guarded files zz_contracts_verif.go contain only comments (contracts) and add no code; internal/interpreter/zz_bounded_verif.go adds one harness function (reconcilePairing2x2) that exists only under the tag and is used by the bounded check of C07',
+            'enable': '-tags verif is passed to go/packages by the SSA exporter; the guarded files zz_contracts_verif.go contain only comments (contracts) and add no code; internal/interpreter/zz_bounded_verif.go adds three harness functions (reconcilePairing2x2, 3x2, 2x3) that exist only under the tag and is used by the bounded check of C07',
             'baseline_off_cmd': '/verif/tools/run_repo_tests.sh /repo',
             'source_commits': hooks,
             'add_only': True,
